@@ -3,7 +3,8 @@ import numpy as np
 
 from common import Cvec, R, cfl, fl, max_rel_err
 
-LEAN_MODULES = ["PyomaVerif.Props.C02", "PyomaVerif.Props.C02C01", "PyomaVerif.Mutants.C02"]
+LEAN_MODULES = ["PyomaVerif.Props.C02", "PyomaVerif.Props.C02C01", "PyomaVerif.Mutants.C02",
+                "PyomaVerif.Props.C02Matrix", "PyomaVerif.Props.C02Results", "PyomaVerif.Props.C02Driver"]
 THEOREMS = [
     "PV.C02.C02_merge",
     "PV.C02.tail_merge",
@@ -34,15 +35,37 @@ THEOREMS = [
     "PV.argmaxNormSq_spec",
     "PV.setup_shape",
     "PV.shape_of_similar",
+    # the whole matrix (Model mergeModeShapes = what the driver runs and the correspondence compares)
+    "PV.C02.C02_merge_all",
+    "PV.C02.C02_merge_all_real",
+    "PV.C02.C02_merge_all_driver",
+    "PV.C02.C02_merge_all_driver_real",
+    "PV.C02.hg_needed",
+    "PV.Merge.mergeModeShapes_ok",
+    "PV.Merge.dot_self_ne_zero_of_real",
+    "PV.Merge.delete_length",
+    # merge_results (Model mergeResults / mergeGroup)
+    "PV.C02.C02_stats_group",
+    "PV.C02.C02_results_groups",
+    "PV.C02.C02_stats_results",
+    "PV.C02.C02_poser",
+    "PV.C02.mergeResults_ok",
+    "PV.Merge.algGroups_nodup",
+    "PV.Merge.mapE_ok_iff",
+    "PV.Merge.pvar_nonneg",
 ]
 RULE = (
     "correspondence: gen.MSF, gen.merge_mode_shapes (complex inputs as exact Gaussian rationals, 1e-10), the multi-setup "
-    "branch of gen.flatten_sns_names (exact) and MultiSetup_PoSER.merge_results statistics vs the Lean model; oracle: the "
+    "branch of gen.flatten_sns_names (exact), the exceptions of gen.merge_mode_shapes on malformed layouts (same exception "
+    "class) and the REAL MultiSetup_PoSER.merge_results (stub algorithms carrying prescribed Fn/Xi/Phi, 2..4 setups, 1..3 "
+    "groups, also duplicate names / ragged Fn / wrong ref_ind: Phi 1e-9, Fn/Xi 1e-12, Fn_cov/Xi_cov 1e-9 + 50 eps, dictionary "
+    "order and exception class exact) vs the Lean models mergeModeShapes / mergeResults; oracle: the "
     "property's domain verbatim (2..5 setups, 1..4 references anywhere and in any order, 0..5 roving, real/complex G, 1..8 "
     "modes, scale factors of either sign with magnitude in [0.05, 20]): merged vs s0*G[order] at 1e-9; names vs row order; "
     "mean / population std. distinct = (n_setups, n_ref, roving counts, complex?, ref positions)"
 )
-EXTRA_TRUSTED = ["np.std, np.mean (population standard deviation) in merge_results", "numpy fancy indexing / np.delete as mirrored by pick / delete"]
+EXTRA_TRUSTED = ["np.sqrt in np.std (the model takes sqrt as a parameter with the contract 0 <= sqrt x, sqrt x * sqrt x = x; the driver runs a "
+                 "40-digit rational square root whose contract residual is recorded)", "numpy fancy indexing / np.delete as mirrored by pick / delete"]
 ASSUMPTIONS = ["the unconjugated square sum of the reference components is bounded away from 0 (cases below 1e-3 of the squared norm are skipped)"]
 
 
